@@ -135,7 +135,6 @@ type pqSegState struct {
 	Seg      int
 	File     []byte
 	Recorded int // "numBlocks" of the segment's .sfm (-1: no readable .sfm, start-up does not adopt the segment)
-	Complete int // complete block records the traced writer had appended (decoded independently of ReadPqmr)
 }
 
 var pqSegStates []pqSegState
@@ -166,8 +165,6 @@ func checkPqmrFiles(run1 string, ops []fsop, k int, sum *vhlib.Summary, h histor
 					}
 				}
 			}
-			bl, _ := decodeWritten(written[f])
-			st.Complete = len(bl)
 			pqSegStates = append(pqSegStates, st)
 		}
 		if k == len(ops) {
@@ -302,34 +299,6 @@ func visibleBlocks(h history, ids []int, seg int) int {
 	return n
 }
 
-// KNOWN finding persistent_query_skips_block_without_match_results: the events a persistent query loses because the
-// searcher takes as many blocks from the pqmr file as the .sfm's NumBlocks says (the INDEX of the last flushed block in
-// a running .sfm) and then skips the raw search of the remaining blocks.  Computed from what the traced writer had
-// appended (not from ReadPqmr).
-func skippedByKnownDefect(h history, visible []int) map[int]bool {
-	out := map[int]bool{}
-	for _, st := range pqSegStates {
-		v := visibleBlocks(h, visible, st.Seg)
-		cov := st.Complete
-		if cov > v {
-			cov = v
-		}
-		if st.Recorded < 0 || cov != st.Recorded {
-			continue
-		}
-		for _, b := range blocksOf(h) {
-			if b.Seg == st.Seg && b.Blk >= cov && b.Blk < v {
-				for i := 0; i < b.N; i++ {
-					if filterMatches(h, b.From+i) {
-						out[b.From+i] = true
-					}
-				}
-			}
-		}
-	}
-	return out
-}
-
 // Coq cases for the searcher model: per adopted segment with a pqmr file, per searchable block, the records that match
 // and the records the real persistent query returned after the restart
 func addAnswerCases(h history, visible, got []int) {
@@ -359,7 +328,7 @@ func addAnswerCases(h history, visible, got []int) {
 			truth = append(truth, coqNList(t))
 			obs = append(obs, coqNList(o))
 		}
-		pqAnswerCases = append(pqAnswerCases, fmt.Sprintf("(%s, (%d, (%s, %s)))", vhlib.CoqBytes(st.File), st.Recorded, vhlib.CoqList(truth), vhlib.CoqList(obs)))
+		pqAnswerCases = append(pqAnswerCases, fmt.Sprintf("(%s, (%s, %s))", vhlib.CoqBytes(st.File), vhlib.CoqList(truth), vhlib.CoqList(obs)))
 	}
 }
 
